@@ -142,6 +142,10 @@ func runC15(c *Ctx) {
 		n = 6000000
 	}
 	c.Cases(n, func(idx int64, r *Rng) {
+		if idx%1201 == 1200 {
+			resetMarathon(c, r)
+			return
+		}
 		bc := genBattle(r, 4, r.Chance(1, 3))
 		if bc.C > 150 {
 			bc.C = r.Range(1, 150)
@@ -437,4 +441,48 @@ func keysM(m map[int]map[g.CoreState]bool) []int {
 	}
 	sort.Ints(out)
 	return out
+}
+
+// resetMarathon reuses one simulator and one StateRecorder for several hundred
+// spawn / run-a-little / Reset rounds: after every Reset the recorder must show
+// every address as empty, however many resets came before.
+func resetMarathon(c *Ctx, r *Rng) {
+	bc := genBattle(r, 3, false)
+	bc.C = 50
+	s, err := g.NewReportingSimulator(bc.config())
+	if err != nil {
+		return
+	}
+	rec := g.NewStateRecorder(s)
+	s.AddReporter(rec)
+	for _, w := range bc.Warriors {
+		s.AddWarrior(&g.WarriorData{Name: "w", Code: toGCode(w.Code), Start: w.Start})
+	}
+	rounds := r.Range(260, 600)
+	for k := 1; k <= rounds; k++ {
+		var pm string
+		if p, msg := try(func() {
+			for i := range bc.Warriors {
+				s.SpawnWarrior(i, g.Address(r.Intn(2*bc.M)))
+			}
+			for n := r.Range(0, 4); n > 0; n-- {
+				s.RunCycle()
+			}
+			s.Reset()
+		}); p {
+			pm = msg
+		}
+		if pm != "" {
+			c.Violate("C15:marathon-panic:"+panicSite(pm), fmt.Sprintf("round %d: %s", k, pm), bc.describe())
+			return
+		}
+		for a := 0; a < bc.M; a++ {
+			if st, o := rec.GetMemState(g.Address(a)); st != g.CoreEmpty || o != -1 {
+				c.Violate("C15:recorder-after-reset", fmt.Sprintf("after Reset number %d on the same simulator the recorder shows address %d as (state %d, warrior %d)", k, a, st, o), bc.describe())
+				return
+			}
+		}
+	}
+	c.Inc("reset_marathons")
+	c.Count("marathon_resets", int64(rounds))
 }
